@@ -17,7 +17,7 @@
      11 as 7, but the 16-bit number is an alias (65536 apart) of a number NACKed earlier
         whose counter was never pruned (counters are keyed by the 16-bit number)
      12 receiveLog.get answers differently from the recount (received and within the window) *)
-From IV Require Import Base.Word Model.ReceiveLog Model.NackGen Spec.NackSpec Spec.NackGenSpec.
+From IV Require Import Base.Word Model.ReceiveLog Model.NackGen Model.NackSend Spec.NackSpec Spec.NackGenSpec.
 From Coq Require Import MSets.MSetPositive.
 
 (* ---------- core stream: case = (size, ops, outs); op (0,seq)=add, (1,skip)=missingSeqNumbers,
@@ -173,11 +173,18 @@ Qed.
 (* ---------- API stream ----------
    case = ((size, skip, max), ops, outs); op (k, a, b, c):
      k=0 reader of ssrc a delivers seq b      k=1 reader of ssrc a returns an error (seq b not recorded)
-     k=2 tick                                 k=3 UnbindRemoteStream a
+     k=2 tick against the RTCP writer plan (a, b) of Model/NackSend.v, plan_writer: a=0 no Write
+         fails, a=1 the b-th Write call of the tick fails, a=2 every Write fails, a=3 a Write
+         carrying a NACK for MediaSSRC b fails, a=4 every Write call from the b-th on fails
+     k=3 UnbindRemoteStream a
      k=4 BindRemoteStream a with nack         k=5 BindRemoteStream a without nack feedback
      k=6 (regression witness of the counter wrap only) nackCountLogs[a][b] := c, i.e. the state
          after c ticks during which b stayed missing and reached its limit, injected through a hook
-   outs: per tick, the NACK packets as (MediaSSRC, expanded sequence numbers), ascending by SSRC *)
+   outs: per tick, the NACK packets HANDED to the RTCP writer (recorded by the writer before it
+   returns, error or not) as (MediaSSRC, expanded sequence numbers), ascending by SSRC.
+   The model runs the send phase (Model/NackSend.v, wstep) against the case's writer plan; the two
+   specification oracles (api_spec_code below, Check/C03StreamCheck.v) do not look at the plan:
+   the property asks for the same requests whatever the writer returns. *)
 Definition api_case := ((Z * Z * Z) * list (Z * Z * Z * Z) * list (list (Z * list (Z * Z))))%type.
 
 Definition expand_outs (outs : list (list (Z * list (Z * Z)))) : list (list (Z * list Z)) :=
@@ -187,7 +194,7 @@ Definition api_step (c : cfg) (g : gen) (o : Z * Z * Z * Z) : gen * option tick_
   let '(k, a, b, v) := o in
   if k =? 0 then step c g (Arrive a b true)
   else if k =? 1 then step c g (Arrive a b false)
-  else if k =? 2 then step c g Tick
+  else if k =? 2 then wstep c g (WTick (plan_writer a b))
   else if k =? 3 then step c g (Unbind a)
   else if k =? 4 then step c g (Bind a true)
   else if k =? 5 then step c g (Bind a false)
